@@ -54,9 +54,70 @@ def gen_leg(rng, chinfo, style=None):
     return leg
 
 
-def gen_pipe(rng, chinfo):
+def negate_charges(chinfo):
+    """a charge mapping compatible with fusion and duality: q -> -q"""
+    def f(charges):
+        return chinfo.make_valid(-charges)
+    return f
+
+
+def gen_pipe(rng, chinfo, derived=None):
+    """`derived`: None = as constructed by LegPipe(...); 'conj'; 'outer_conj' / 'outer_conj2' (once / twice);
+    'mapped' = apply_charge_mapping (q -> -q).  The derived ones keep the block order of the pipe they come from."""
     legs = [gen_leg(rng, chinfo, rng.choice(['raw', 'sorted', 'bunched', 'single'])) for _ in range(rng.randint(1, 3))]
-    return tc.LegPipe(legs, qconj=rng.choice([1, -1]), sort=rng.random() < 0.7, bunch=rng.random() < 0.7)
+    p = tc.LegPipe(legs, qconj=rng.choice([1, -1]), sort=rng.random() < 0.7, bunch=rng.random() < 0.7)
+    return derive_pipe(p, derived)
+
+
+def derive_pipe(p, derived):
+    if derived == 'conj':
+        return p.conj()
+    if derived == 'outer_conj':
+        return p.outer_conj()
+    if derived == 'outer_conj2':
+        return p.outer_conj().outer_conj()
+    if derived == 'mapped':
+        return p.apply_charge_mapping(negate_charges(p.chinfo))
+    return p
+
+
+def pipe_differs_from_reinit(p):
+    """Predicate on the INPUT (no save/load involved): is `p` different from the pipe `LegPipe.from_hdf5` builds,
+    i.e. `LegPipe(p.legs, p.qconj, sort=p.sorted, bunch=p.bunched)`?  True for most pipes returned by `outer_conj()` /
+    `apply_charge_mapping()` (they keep the block order of the pipe they were derived from)."""
+    import warnings
+    with warnings.catch_warnings():
+        warnings.simplefilter('ignore')
+        try:
+            q = type(p)(p.legs, p.qconj, p.sorted, p.bunched)
+        except Exception:
+            return True
+    from harness import c17_graph as G
+    # any attribute: blocks, q_map, _perm, but also the flags and the type of `legs`
+    return bool(G.Compare(max_diffs=1).run(p, q))
+
+
+def noncanonical_pipes(obj, limit=20000):
+    """all LegPipe instances below `obj` (containers, instance attributes) with pipe_differs_from_reinit"""
+    seen, todo, out, n = set(), [obj], [], 0
+    scalars = (int, float, complex, str, bytes, bool, type(None), np.generic, np.ndarray, np.dtype, range, type)
+    while todo and n < limit:
+        x = todo.pop()
+        if id(x) in seen or isinstance(x, scalars):
+            continue
+        seen.add(id(x))
+        n += 1
+        if isinstance(x, (list, tuple, set, frozenset)):
+            todo += list(x)
+        elif isinstance(x, dict):
+            todo += list(x.values())
+        else:
+            if isinstance(x, tc.LegPipe) and pipe_differs_from_reinit(x):
+                out.append(x)
+            d = getattr(x, '__dict__', None)
+            if d:
+                todo += list(d.values())
+    return out
 
 
 def gen_array(rng, chinfo=None, legs=None):
@@ -92,6 +153,12 @@ def gen_array(rng, chinfo=None, legs=None):
         A._qdata = A._qdata[keep]
     if rng.random() < 0.3 and A.rank >= 2:
         A = A.combine_legs([0, 1])  # contains a LegPipe
+        r = rng.random()
+        if r < 0.2:
+            # a tensor carrying an outer_conj'ed pipe: qconj and charges flip together, the charge rule still holds
+            A.legs[0] = A.legs[0].outer_conj()
+        elif r < 0.3:
+            A = A.apply_charge_mapping(negate_charges(chinfo))
     return A
 
 
